@@ -64,6 +64,9 @@ pub fn run(cases_path: &str, report_path: &str, opts: &[String]) {
         if idx < start { continue; }
         let bytes = unhex(c["hex"].as_str().expect("hex"));
         let pw = c["password"].as_str().unwrap_or("").as_bytes().to_vec();
+        if let Ok(mut t) = crate::exercise::TYPED.lock() {
+            *t = c["typed"].as_array().map(|a| a.iter().map(|x| (x[0].as_str().unwrap().to_string(), x[1].as_u64().unwrap())).collect()).unwrap_or_default();
+        }
         r.case(idx, &c["id"], c["cls"].as_str().unwrap_or(""), &bytes, &pw);
     }
     r.done(cases.len());
